@@ -28,6 +28,7 @@ fn <file> :: <impl key> :: <name>          (or  fn <file> :: <name>  for free fu
       call: <replacement call text>
       requires: ...
       ensures: ...
+      tail: <text appended inside the helper body after the outlined text, e.g. the variable a multi-statement outline binds>
   extra                                     (raw Verus items emitted after the function's enclosing item)
   attr <attribute text>
 end
